@@ -171,7 +171,7 @@ class History:
         label = rng.choice([None, "lbl" + str(step), "Contract", "a b c", " lead" + str(step), "trail   ", "\tboth\n", "Ü" + str(step)])
         admin = rng.choice([None, self.accounts[3], self.accounts[3], self.accounts[0]])
         funds = draw_funds(rng, rich=rng.random() < 0.9)
-        salt = rng.choice([None, None, None, base64.b64encode(bytes(rng.randrange(256) for _ in range(rng.choice([0, 1, 8, 32, 65])))).decode()])
+        salt = rng.choice([None, None, None, base64.b64encode(bytes(rng.randrange(256) for _ in range(rng.choice([0, 1, 8, 32, 63, 64, 64, 65])))).decode()])
         sender = rng.choice(self.accounts[:4])
         plan, cls = draw_plan(rng, prog, inst, self.canon, self.accounts)
         factory = False
